@@ -23,6 +23,8 @@ def cases(draw, tier):
             if r < 6:
                 item[0] += 1
                 steps.append({'op': 'qput', 's': 0, 'v': item[0]})
+                if draw(st.integers(0, 5)) == 0:
+                    steps[-1]['defer'] = draw(st.sampled_from([0, 0, 0.5, 1, 2]))
             elif r < 8:
                 steps.append(sl())
             elif r < 9:
